@@ -2,6 +2,8 @@ SPECIFICATION SimSpec
 CONSTANTS
   WorkerCpus <- O_Workers
   WorkerGroup <- O_Groups
+  WorkerLife <- O_Life
+  MaxTicks = 0
   Menu <- O_Menu
   OpenJobs <- O_Open
   Classes <- O_Classes
